@@ -186,6 +186,10 @@ fn value_case(a: &Args, l: u32, ctx: &mut Ctx) -> Result<(), String> {
         brim += 1;
     }
     let mut news: Vec<u32> = vec![l.saturating_sub(1), l + 1, brim as u32, brim as u32 + 1, brim as u32 + 2, brim as u32 + 3, slot as u32, slot as u32 + 1, l / 2];
+    if l >= 4 << 20 {
+        // 16 MiB values: the neighbours of l and the first length that leaves the slot
+        news = vec![l - 1, l + 1, brim as u32 + 1];
+    }
     news.retain(|&x| x != l);
     news.sort_unstable();
     news.dedup();
@@ -307,10 +311,16 @@ pub fn run(a: &Args) -> Ctx {
             vals.push(c + d - 8);
         }
     }
+    // slots of 16 MiB and more (the slot-size field grows to four bytes): thorough takes every length around the edge
     if a.thorough {
         for d in 0..=2u32 {
             vals.push((1 << 24) - 4 + d);
         }
+        for d in 0..=24u32 {
+            vals.push(16_777_070 + d);
+        }
+    } else {
+        vals.extend_from_slice(&[16_777_072, 16_777_080, 16_777_081, 16_777_088, (1 << 24) - 3]);
     }
     vals.sort_unstable();
     vals.dedup();
@@ -327,6 +337,8 @@ pub fn run(a: &Args) -> Ctx {
             }
         }
     }
+    // beyond the 16-bit key length and around the 128 KiB slot (three-byte slot-size field of a key record)
+    keys.extend_from_slice(&[65_536, 65_537, 70_000, 130_900, 130_950, 131_050, 131_071, 131_072, 131_080, 140_000]);
     keys.sort_unstable();
     keys.dedup();
     run_lengths(a, &mut ctx, &vals, &keys);
